@@ -109,8 +109,8 @@ class FakeManager:
 def plan(tier: str) -> list[dict]:
     q = tier == "quick"
     return [
-        {"stratum": "deaths", "runs": 192 if q else 9000, "params": {}, "chunk": 12 if q else 225},
-        {"stratum": "ppr-live-workers", "runs": 64 if q else 3000, "params": {"mode": "live"}, "chunk": 4 if q else 100},
+        {"stratum": "deaths", "runs": 192 if q else 9000, "params": {}, "chunk": 12 if q else 100},
+        {"stratum": "ppr-live-workers", "runs": 64 if q else 3000, "params": {"mode": "live"}, "chunk": 4 if q else 25},
     ]
 
 
